@@ -356,6 +356,27 @@ func (u *U) Eq(a, b *E) *E {
 			return u.Bool(False)
 		}
 	}
+	// s[len(s)-len(p):] == p  ->  HasSuffix(s, p);  s[:len(p)] == p  ->  HasPrefix(s, p)
+	// (as values: where the slice expression does not panic the two agree)
+	for i := 0; i < 2; i++ {
+		x, p := a, b
+		if i == 1 {
+			x, p = b, a
+		}
+		if x.Op != "slice" || !isStringT(x.Typ) || len(x.Args) < 3 || p.Op == "slice" && i == 0 && b.Op == "slice" && a.Op == "slice" {
+			continue
+		}
+		str, lo, hi := x.Args[0], x.Args[1], x.Args[2]
+		if hi == nil && lo != nil {
+			want := u.Bin(token.SUB, u.Len(str), u.Len(p), types.Typ[types.Int])
+			if lo == want {
+				return u.LibCall("strings.HasSuffix", types.Typ[types.Bool], str, p)
+			}
+		}
+		if (lo == nil || isIntConst(lo, 0)) && hi != nil && hi == u.Len(p) {
+			return u.LibCall("strings.HasPrefix", types.Typ[types.Bool], str, p)
+		}
+	}
 	// s == ""  ->  len(s) == 0
 	if s, ok := b.StrVal(); ok && s == "" && !a.IsConst() {
 		return u.Eq(u.Len(a), u.Int(0))
